@@ -299,8 +299,19 @@ def direct_clauses(m: Model, c, partial_ok: bool) -> List[str]:
   vspec = c.value_spec if m.kind == 'dict' else None
   sch = vspec.schema if vspec is not None else m.cls.__schema__
   keys = list(c.sym_keys())
+  # the field a key belongs to, resolved here from the declared key specs (a declared constant key first, then the
+  # first dynamic key spec that matches) -- not through the code's own per-key lookup, which is part of what is checked
+  const_fields = {str(ks): f for ks, f in sch.items() if ks.is_const}
+
+  def field_of(k):
+    if k in const_fields:
+      return const_fields[k]
+    for ks, f in sch.items():
+      if not ks.is_const and ks.match(k):
+        return f
+    return None
   for k in keys:
-    if sch.get_field(k) is None:
+    if field_of(k) is None:
       bad.append('declared_keys')
   for key_spec, field in sch.items():
     if not key_spec.is_const:
@@ -314,7 +325,7 @@ def direct_clauses(m: Model, c, partial_ok: bool) -> List[str]:
     if field.value.frozen and not pg.eq(v, field.value.default):
       bad.append('frozen')
   for k in keys:
-    field = sch.get_field(k)
+    field = field_of(k)
     if field is None:
       continue
     v = c.sym_getattr(k)
